@@ -8,6 +8,7 @@ pub mod c07;
 pub mod c09;
 pub mod c10;
 pub mod c12;
+pub mod c13;
 pub mod c14;
 pub mod c15;
 pub mod c19;
@@ -28,6 +29,7 @@ pub fn run(ctx: &Ctx, sink: &mut Sink) -> bool {
         "C09" => c09::run_c09(ctx, sink),
         "C10" => c10::run_prop(ctx, sink),
         "C12" => c12::run_prop(ctx, sink),
+        "C13" => c13::run_prop(ctx, sink),
         "C19" => c19::run_prop(ctx, sink),
         "C20" => c20::run_prop(ctx, sink),
         "C06" => c06::run_prop(ctx, sink),
